@@ -766,7 +766,8 @@ class Assembler:
                 if fs.strict is not None and self.twins:
                     self.emit_fn(fs, "strict")
                 has_req = any(c[0] == "requires" for c in VS.split_clauses(fs.spec))
-                if self.canaries and has_req and not fs.nocanary:
+                in_trait_impl = it.parent is not None and it.parent.kind == "impl" and it.parent.impl_trait is not None
+                if self.canaries and has_req and not fs.nocanary and not in_trait_impl:
                     self.emit_fn(fs, "canary")
             elif e[0] == "extern":
                 fs = self.fnspecs.get(e[1])
